@@ -9,4 +9,5 @@ test -x "$VERIF/mirfacts/target/debug/mirfacts"
 # warm the dependency build of /repo for the two quick configurations (facts are cached by source hash)
 "$VERIF/bin/extract" host+batch >/dev/null
 "$VERIF/bin/extract" host-batch >/dev/null
+"$VERIF/bin/extract" prelude-host >/dev/null
 echo "setup ok"
